@@ -120,6 +120,9 @@ def handle : Handler := fun op inp =>
       let rows := List.zip (List.zip m1 v1) (List.zip m2 v2)
       return jList (fun (r : (Rat × Rat) × (Rat × Rat)) =>
         Json.arr #[jRat (welchTSq r.1.1 r.1.2 n1 r.2.1 r.2.2 n2), jOpt jRat (welchNu r.1.2 n1 r.2.2 n2)]) rows
+  | "refmarkers.pairs" => some do
+      let n ← asNat (← field inp "n")
+      return jList (jPair jNat jNat) (combos2 (List.range n))
   | "refmarkers.consecutive" => some do
       let idx ← natList (← field inp "idx")
       return jExcept (fun _ => Json.null) (consecutiveCheck idx)
